@@ -329,3 +329,55 @@ Proof.
     + intros x Hx. rewrite repeat_length in Hx. symmetry. apply (div_1d n m p dx x Hx).
     + intros y Hy. cbn [eval]. f_equal. symmetry. apply (grad_1d n _ _ dx y).
 Qed.
+
+(* ---------------- closure (leaf_good) for the finite-difference leaf ---------------- *)
+Lemma adj_method_invol m : adj_method (adj_method m) = m.
+Proof. destruct m; reflexivity. Qed.
+Lemma adj_padding_invol p : adj_padding (adj_padding p) = p.
+Proof. destruct p; reflexivity. Qed.
+Lemma leaf_good_pderiv_1d (c dx : R) (n : nat) (m : meth) (p : pmode) :
+  dx <> 0 -> (2 <= n)%nat ->
+  bnd_in_range n (boundary_tab p m) = true ->
+  bnd_in_range n (boundary_tab (adj_padding p) (adj_method m)) = true ->
+  leaf_good (LPDeriv (repeat c n) (repeat c n) [n] 0 m p dx).
+Proof.
+  intros Hdx Hn Hb1 Hb2. split; [apply leaf_ok_pderiv_1d; assumption|].
+  cbn [leaf_adjoint wf]. apply leaf_ok_pderiv_1d; try assumption.
+  rewrite adj_method_invol, adj_padding_invol. assumption.
+Qed.
+
+(* ---------------- the precondition of sampling_adjoint_partial is necessary ---------------- *)
+Lemma nth_add_at_same (l : list R) j v : (j < length l)%nat -> nth j (add_at j v l) 0 = nth j l 0 + v.
+Proof.
+  revert j; induction l as [|a l IH]; intros j Hj; [cbn in Hj; lia|].
+  destruct j; [reflexivity|]. cbn [add_at nth]. apply IH. cbn in Hj; lia.
+Qed.
+Lemma nth_zeros n j : nth j (@zeros R _ n) 0 = 0.
+Proof. revert j; induction n; intros [|j]; try reflexivity. cbn. apply IHn. Qed.
+Lemma nth_unitv n j : (j < n)%nat -> nth j (unitv n j) 0 = 1.
+Proof. intros Hj. unfold unitv. rewrite nth_add_at_same by (rewrite zeros_len; assumption). rewrite nth_zeros. lra. Qed.
+
+Lemma nth_map_divc (cv : R) (l : list R) j : nth j (map (fun a : R => (a / cv)%num) l) 0 = nth j l 0 / cv.
+Proof.
+  revert j; induction l as [|a l IH]; intros [|j]; cbn [map nth]; try apply IH; try reflexivity;
+    unfold Rdiv; ring.
+Qed.
+Lemma sampling_identity_forces_cell_volume (wd : list R) (cv : R) (j : nat) :
+  cv <> 0 -> (j < length wd)%nat ->
+  (forall x y, length x = length wd -> length y = 1%nat ->
+     cinner (ones 1) (eval_leaf (LSampling wd [j] false cv) x) y =
+     cinner wd x (eval (leaf_adjoint (LSampling wd [j] false cv)) y)) ->
+  nth j wd 0 = cv.
+Proof.
+  intros Hcv Hj Hid. specialize (Hid (unitv (length wd) j) [1] (unitv_len _ _) eq_refl).
+  cbn [eval_leaf leaf_adjoint eval negb gather map scatter] in Hid.
+  fold (unitv (length wd) j) in Hid. rewrite nth_unitv in Hid by assumption.
+  rewrite !cinner_R in Hid. rewrite (wdot_swap OKR wd) in Hid.
+  rewrite wdot_unitv in Hid by (rewrite ?map_length, ?unitv_len; auto).
+  assert (E : nth j (map (fun a : R => (a / cv)%num) (unitv (length wd) j)) 0 = 1 / cv).
+  { rewrite nth_map_divc, nth_unitv by assumption. reflexivity. }
+  rewrite E in Hid. unfold wdot, ones in Hid. cbn in Hid.
+  assert (H1 : nth j wd 0 * (1 / cv) = 1) by lra.
+  assert (H2 : nth j wd 0 = nth j wd 0 * (1 / cv) * cv) by (field; assumption).
+  rewrite H2, H1. ring.
+Qed.
